@@ -72,6 +72,11 @@ CHECKS.update({
    text="Exploration. Genuine pairs complete with equal secrets (both role orders, repeated, interleaved). A 347-entry forgery catalogue is run in all waiting states: any forgery must not lead to Ok/OkFinalMessage or a shared secret, and the genuine next message must still complete the handshake (no-dos).",
    note="Security build; plugin level (SecureDiscovery's resend logic is read, not driven); properties the spec makes optional are not judged when altered; certificate validity periods are not checked by the implementation (observed, not judged).", ref="3/C19"),
 })
+CHECKS.update({
+ "C13": dict(engine="E-SCHED", technique="runtime monitoring under a controlled scheduler: real threads, one runnable at a time, seeded uniform-random and PCT priority schedules over yield points placed between the critical sections; lost wake-up decided at quiescence by a fresh take / re-poll",
+   text="Exploration of interleavings. Producer thread (real Reader fed with DATA) against a consumer thread that follows the documented pattern through the async stream, mio-0.6 or mio-0.8, with modelled parking; and an async task writing against the full 16-slot command queue while another thread runs the Writer's command loop. At quiescence a parked consumer/task that got no wake-up although a sample is available (or its future would complete) is a lost wake-up; delivered set must equal produced set.",
+   note="Granularity = the 12 yield sites (hook H5), not instructions: interleavings inside mio, the kernel socketpair or a single lock scope are not explored; the status-event channels are not scheduled. async_wait_for_acknowledgments' completion signal is covered by C20's executor-discipline leg.", ref="3/C13"),
+})
 NOT_YET = {}
 
 def main():
@@ -109,6 +114,7 @@ def main():
             {"name": "E-HOSTILE", "path": "/verif/harness/vcheck/src/{hostile,c_hostile,alloc,shard}.rs", "serves_properties": ["C06"], "kind_free_text": "hostile-datagram driver over ReaderBench+WriterBench in subprocess shards with panic hook, counting allocator, CPU-time probes and watchdog"},
             {"name": "E-STACK/fake-participants", "path": "/verif/incrate/disc.rs + /verif/harness/vcheck/src/{stk,c_stack}.rs", "serves_properties": ["C11", "C12"], "kind_free_text": "real DomainParticipant over loopback UDP against harness-controlled SPDP/SEDP speakers; public API observation; subprocess shards, one domain id each"},
             {"name": "E-SEC", "path": "/verif/incrate/sec_*.rs + /verif/harness/vcheck/src/c_{crypto,access,auth}.rs", "serves_properties": ["C16", "C18", "C19"], "kind_free_text": "in-crate drivers of the builtin security plugins (feature security), oracles and independent walkers in the harness"},
+            {"name": "E-SCHED", "path": "/verif/incrate/{sched,schedsc}.rs + /verif/harness/vcheck/src/c_sched.rs", "serves_properties": ["C13"], "kind_free_text": "baton scheduler behind verif_yield! (hook H5): real threads, controlled interleavings, uniform-random and PCT schedules"},
             {"name": "E-API", "path": "/verif/harness/vcheck/src/api.rs", "serves_properties": ["C08", "C09"], "kind_free_text": "reference model of DDS sample/view/instance semantics in lock-step with a real DataReader fed through ReaderBench; subprocess shards with CPU-time watchdog for C09"},
         ],
         "checks": checks,
